@@ -28,7 +28,11 @@ REFERENCE = [
     # (needs angle?, probe kind, ownership)
     (False, "as-given", "S_local"),
     (False, "includer-dir", "S_alternate"),
-    (True, "angle-path", "S_system"),
+    # the <> form: a name that is not local (absolute) as given, then each -S directory.  Until F-C17c this row read
+    # (True, "angle-path", ...): the lookup was left to DSearchPath::find_file(), which this table accepted although it
+    # takes a directory for the file and treats an empty path as "." - the reference had copied the defect.
+    (True, "as-given", "S_system"),
+    (True, "angle-path-manual", "S_system"),
     (False, "quote-path", "_quote_include_kind[dir]"),
 ]
 
@@ -117,6 +121,18 @@ def run(ctx):
         ctx.ob("R17.1", "find_include|probe#%d|%s" % (i, want[1]), got == want, fi.loc(rets[i]) if i < len(rets) else fi.loc(),
                "probe %d is %s, documented %s  (angle?, where, ownership)" % (i, got, want))
     ctx.ob("R17.1", "find_include|no-extra-probe", len(seq) == len(REFERENCE), fi.loc(), "%d successful-return sites, documented %d" % (len(seq), len(REFERENCE)))
+    # the <> form may take the name as given only when it is not a local name: `#include <x.h>` never finds ./x.h
+    for i, (ang, kind, _) in enumerate(seq):
+        if ang is True and kind == "as-given":
+            nl = G.edges_where(fi, lambda atom, truth: atom is not None and atom.get("k") == "call" and callee_short(atom) == "is_local" and "this" in atom and
+                               (local_ref(atom["this"]) or {}).get("dk") == "param" and not truth)
+            ok = bool(nl) and G.gated(fi, rets[i], nl)
+            ctx.ob("R17.1", "find_include|probe#%d|angle-as-given-only-if-not-local" % i, ok, fi.loc(rets[i]),
+                   "for <> the name is tried as given %s where is_local() is false" % ("only" if ok else "ALSO"))
+    # no lookup is delegated to DSearchPath (find_file()/resolve_filename(): satisfied by a directory; empty path = ".")
+    deleg = [c for c in fi.walk() if c.get("k") == "call" and callee_short(c) in ("resolve_filename", "find_file", "find_all_files")]
+    ctx.ob("R17.1", "find_include|no-DSearchPath-lookup", not deleg, fi.loc(deleg[0]) if deleg else fi.loc(),
+           "find_include walks the directories itself" if not deleg else "a lookup is left to DSearchPath, which accepts a directory and reads an empty path as \".\"")
     # R17.7: a probe made by find_include itself must not be satisfied by a directory (F-C17b: a directory `vector` in the
     # working directory shadowed inc/vector; the "file" was opened, yielded nothing, and no warning was printed)
     ctx.rule("R17.7", "the probes find_include makes itself (cwd, includer's directory, each -I/-S directory) ask for a regular file: is_regular_file(), or exists() together with !is_directory()")
@@ -131,7 +147,7 @@ def run(ctx):
             nd = G.edges_where(fi, lambda atom, truth, obj=obj: atom is not None and atom.get("k") == "call" and callee_short(atom) == "is_directory" and show(atom.get("this")) == obj and not truth)
             ok7 = bool(nd) and G.gated(fi, rets[i], nd)
         ctx.ob("R17.7", "find_include|probe#%d|%s|not-a-directory" % (i, seq[i][1]), ok7, fi.loc(b), "probe `%s` %s a directory" % (show(b)[:40], "cannot be satisfied by" if ok7 else "is satisfied by"))
-    ctx.floor("R17.7", "direct probes in find_include", n7, 3)
+    ctx.floor("R17.7", "direct probes in find_include", n7, 5)
     # order: a later probe of the same mode is reached only after the earlier one failed
     for i in range(len(rets)):
         for j in range(i + 1, len(rets)):
@@ -146,6 +162,9 @@ def run(ctx):
                         and show(atom["this"]) == show(pi["this"]) and truth
                 # both probes need the same angle mode: exclude the other mode's (infeasible) paths
                 mode_cut = e_angle_true if seq[j][0] is False else (e_angle_false if seq[j][0] is True else [])
+                if seq[i][0] is True and seq[i][1] == "as-given":
+                    # the <> as-given probe exists for non-local names only; for a local name it does not apply (it has not "failed")
+                    mode_cut = mode_cut + G.edges_where(fi, lambda atom, truth: atom is not None and atom.get("k") == "call" and callee_short(atom) == "is_local" and truth)
                 ok = G.gated(fi, rets[j], G.edges_where(fi, failed) + mode_cut)
                 ctx.ob("R17.1", "find_include|order|%s-before-%s" % (seq[i][1], seq[j][1]), ok, fi.loc(rets[j]),
                        "%s is tried only after %s failed" % (seq[j][1], seq[i][1]))
@@ -163,6 +182,10 @@ def run(ctx):
         idx_ok = len(uses) >= 2 and all(any((local_ref(a) or {}).get("d") == var for a in u.get("a", [])) for u in uses)
         if var and asc and idx_ok:
             ok = True
+        if any(callee_short(u) == "get_directory" for u in uses):
+            one = bool(var) and asc and all(any((local_ref(a) or {}).get("d") == var for a in u.get("a", [])) for u in uses)
+            ctx.ob("R17.1", "find_include|directory-loop@%s|ascending-from-0" % fi.loc(lp).split(":")[-1], one, fi.loc(lp),
+                   "directories are tried in command-line order")
     ctx.ob("R17.1", "find_include|quote-path-loop-ascending-same-index", ok, fi.loc(loops[0]) if loops else fi.loc(),
            "the -I/-S loop runs dir = 0.. ascending and reads directory and kind with the same index")
 
